@@ -817,8 +817,8 @@ func vxDrawBinds(t *rapid.T, proto int, min int) []vxC03Bind {
 	var out []vxC03Bind
 	for i := 0; i < n; i++ {
 		b := vxC03Bind{Kind: rapid.IntRange(0, 3).Draw(t, "bkind")}
-		if b.Kind == 3 && proto < 4 {
-			b.Kind = 2
+		if b.Kind == 3 && proto < 4 && rapid.IntRange(0, 5).Draw(t, "unset_old") != 0 {
+			b.Kind = 2 // (else: "not set" below protocol 4, which has no such thing - the driver must refuse)
 		}
 		b.Int = int32(rapid.Int32().Draw(t, "bint"))
 		b.Text = rapid.String().Draw(t, "btext")
@@ -874,7 +874,7 @@ func TestVxC03Session(t *testing.T) {
 			c.ConsVia = rapid.SampledFrom([]int{0, 0, 1, 2}).Draw(t, "cons_via")
 			c.Twice = rapid.IntRange(0, 3).Draw(t, "twice") == 0
 			c.Released = rapid.IntRange(0, 2).Draw(t, "released") == 0
-			c.Layout = rapid.SampledFrom([]int{0, 0, 0, 1, 2, 3, 4}).Draw(t, "layout")
+			c.Layout = rapid.SampledFrom([]int{0, 0, 0, 1, 2, 3, 4, 5, 6}).Draw(t, "layout")
 			if c.Kind == "batch" && c.Proto < 2 {
 				c.Proto = 2
 			}
@@ -893,6 +893,8 @@ func TestVxC03Session(t *testing.T) {
 				c.Advert = []string{"deflate", "lz4"}
 			case 2:
 				c.Advert = []string{"snappy"}
+			case 3:
+				c.Advert = []string{"-"} // SUPPORTED without any COMPRESSION entry
 			}
 			switch c.Kind {
 			case "prepared":
@@ -945,7 +947,10 @@ func TestVxC03Session(t *testing.T) {
 				comp = SnappyCompressor{}
 			}
 			negotiated := c.Snappy
-			if c.Advert != nil {
+			if len(c.Advert) == 1 && c.Advert[0] == "-" {
+				node.Supported = map[string][]string{"CQL_VERSION": {"3.4.4"}}
+				negotiated = false
+			} else if c.Advert != nil {
 				node.Supported = map[string][]string{"CQL_VERSION": {"3.4.4"}, "COMPRESSION": c.Advert}
 				negotiated = false
 				for _, a := range c.Advert {
@@ -1007,6 +1012,10 @@ func TestVxC03Session(t *testing.T) {
 					return "  \n\tselect a from t where " + conds
 				case 4:
 					return "Select a From t Where " + conds + "\n"
+				case 5:
+					return "SELECT* FROM t WHERE " + conds // valid CQL that the driver's DML test does not recognise
+				case 6:
+					return "/* by id */ SELECT a FROM t WHERE " + conds
 				}
 				return "SELECT a FROM t WHERE " + conds
 			}
@@ -1124,6 +1133,40 @@ func TestVxC03Session(t *testing.T) {
 				}
 			}
 			t1 := time.Now()
+			// what cannot be said in the negotiated version, or cannot be sent with its values, is refused - not sent in
+			// another form: "not set" below protocol 4; values for a statement the driver does not prepare
+			refuse := ""
+			if c.Kind == "prepared" || c.Kind == "batch" {
+				all := [][]vxC03Bind{c.Binds}
+				if c.Kind == "batch" {
+					all = c.Entries
+				}
+				for _, bs := range all {
+					for _, b := range bs {
+						if b.Kind == 3 && c.Proto < 4 {
+							refuse = "a value that is \"not set\" under protocol " + itoa(c.Proto)
+						}
+					}
+				}
+			}
+			if c.Kind == "prepared" && c.Layout >= 5 && len(c.Binds) > 0 && refuse == "" {
+				refuse = "values for a statement the driver does not prepare"
+			}
+			if refuse != "" {
+				k.Class("refused: " + refuse)
+				if execErr == nil {
+					return fmt.Errorf("%s with %s succeeded", c.Kind, refuse)
+				}
+				for _, l := range cl.AllLogs() {
+					if l.Req != nil && (l.Req.Kind == "EXECUTE" || l.Req.Kind == "BATCH" || (l.Req.Kind == "QUERY" && strings.Contains(l.Req.Statement, " t WHERE "))) {
+						return fmt.Errorf("%s with %s was refused (%v) and still a %s request reached the node", c.Kind, refuse, execErr, l.Req.Kind)
+					}
+					if h, _, herr := cqlspec.ParseHeader(l.Raw); l.Req == nil && herr == nil && (h.Op == cqlspec.OpExecute || h.Op == cqlspec.OpBatch) {
+						return fmt.Errorf("%s with %s: a request frame the specification's decoder rejects (%s) reached the node; the caller got %v", c.Kind, refuse, l.Err, execErr)
+					}
+				}
+				return nil
+			}
 			if execErr != nil {
 				return fmt.Errorf("%s failed: %v", c.Kind, execErr)
 			}
